@@ -1,6 +1,7 @@
 import Req.Driver.Proto
 import Req.Base.Base64
 import Req.Client.Auth
+import Req.Client.AuthWire
 import Req.Client.Digest
 import Req.Client.DigestAuth
 import Req.Client.Rfc7616
@@ -224,6 +225,48 @@ def laneHandle2With (full : Bool) : List String → String
     | _, _, _, _, _, _, _, _ => "bad-op"
   | _ => "bad-op"
 
+/-! ### basic / bearer on the wire -/
+
+def pairHex : Option (Bytes × Bytes) → String
+  | some (u, p) => "some:" ++ encodeHex u ++ ":" ++ encodeHex p
+  | none => "none"
+
+/-- `c20wirebasic h1|h2 user pass` → `refused` | `none` | `some:<user>:<pass>` -/
+def laneWireBasic : List String → String
+  | [proto, u, p] =>
+    match decodeHex u, decodeHex p with
+    | some u, some p =>
+      (match Req.Auth.wireBasic (proto == "h2") u p with
+       | none => "refused"
+       | some r => pairHex r)
+    | _, _ => "bad-op"
+  | _ => "bad-op"
+
+/-- `c20wirebearer h1|h2 token` → `refused` | `none` | `some:<token>` -/
+def laneWireBearer : List String → String
+  | [proto, t] =>
+    match decodeHex t with
+    | some t =>
+      (match Req.Auth.wireBearer (proto == "h2") t with
+       | none => "refused"
+       | some r => optHex r)
+    | none => "bad-op"
+  | _ => "bad-op"
+
+/-- `c20effective h1|h2 req|. client|. urluser|. urlpass` → the Authorization value on the wire -/
+def laneEffective : List String → String
+  | [proto, r, c, uu, up] =>
+    match decodeOpt r, decodeOpt c, decodeOpt uu, decodeHex up with
+    | some r, some c, some uu, some up =>
+      (match Req.Auth.effective r c (uu.map fun u => (u, up)) with
+       | none => "none"
+       | some v =>
+         (match Req.Auth.transport (proto == "h2") v with
+          | none => "refused"
+          | some w => "some:" ++ encodeHex w))
+    | _, _, _, _ => "bad-op"
+  | _ => "bad-op"
+
 def lanes : List (String × (List String → String)) := [
   ("c20b64", laneB64),
   ("c20b64dec", laneB64Dec),
@@ -240,7 +283,10 @@ def lanes : List (String × (List String → String)) := [
   ("c20create2", laneCreate2),
   ("c20create", laneCreate),
   ("c20handle2", laneHandle2With true),
-  ("c20kind2", laneHandle2With false)
+  ("c20kind2", laneHandle2With false),
+  ("c20wirebasic", laneWireBasic),
+  ("c20wirebearer", laneWireBearer),
+  ("c20effective", laneEffective)
 ]
 
 end Req.Driver.L.C20
